@@ -27,6 +27,7 @@ class FunctionReport:
         self.infeasible = 0
         self.seconds = 0.0
         self.calls_by_contract: List[str] = []
+        self.partial_raises: List[Any] = []
         self.inlined: List[str] = []
         self.pre_witness = False
 
@@ -139,6 +140,7 @@ def verify_function(c: Contract, timeout_s: float = 10.0, solve: bool = True) ->
         pass
     ex = Exec(fi, c, REGISTRY)
     ex.raised = []
+    ex.partial_raises = []
     ex.known_heap_keys = {}
     ex.loop_extra_havoc = set()
     try:
@@ -188,6 +190,8 @@ def verify_function(c: Contract, timeout_s: float = 10.0, solve: bool = True) ->
             ns["old"] = OldView(ex, st_entry)
             ns["new"] = OldView(ex, st2)
             for cl in c.ensures:
+                if cl.naming:
+                    continue
                 g, stx = ex.eval_clause(cl, ns, st2)
                 if not cl.known:
                     ex.oblige(stx, "post", cl.label, _b(g), tags=cl.tags or c.tags, note=cl.note)
@@ -212,11 +216,23 @@ def verify_function(c: Contract, timeout_s: float = 10.0, solve: bool = True) ->
             for rn, rfn in c.raises:
                 if rn == name:
                     allowed = True
+                    if rfn is not None:
+                        # conditional raises clause: the exception may be raised only where the condition (over the entry
+                        # state) holds -- callers that do not allow the exception rely on its negation
+                        from .dsl import Clause
+                        nsr = dict(env)
+                        nsr.update(st2.ghost)
+                        nsr["old"] = OldView(ex, st_entry)
+                        g, stx = ex.eval_clause(Clause(f"raises-{name}", rfn), nsr, st2)
+                        ex.oblige(stx, "safe", f"raise-only-if-{name}@{line}", _b(g), tags=list(set(["C17"] + c.tags)))
             if not allowed:
                 ex.oblige(st2, "safe", f"raise-{name}@{line}", z3.BoolVal(False), tags=list(set(["C17"] + c.tags)))
     except Unsupported as e:
         rep.status = "unsupported"
         rep.reason = str(e)
+        import os as _os
+        if _os.environ.get("PYVC_TRACE"):
+            rep.reason += "\n" + traceback.format_exc()[-1800:]
     except TooManyPaths as e:
         rep.status = "unsupported"
         rep.reason = str(e)
@@ -227,6 +243,7 @@ def verify_function(c: Contract, timeout_s: float = 10.0, solve: bool = True) ->
     rep.paths = ex.npaths
     rep.infeasible = ex.infeasible_paths
     rep.calls_by_contract = ex.calls_by_contract
+    rep.partial_raises = sorted(set(ex.partial_raises))
     rep.inlined = ex.inlined
     if solve:
         solve_all(rep.obligations, timeout_s)
